@@ -29,6 +29,12 @@ func vpoint(kind uint8, loc unsafe.Pointer) {
 	verifhook.Point(kind, loc)
 }
 
+// vmap returns the identity of a registry map (nil for a nil map), so that two
+// variables holding the same map are seen as one location.
+func vmap(m map[string]reflect.Value) unsafe.Pointer {
+	return *(*unsafe.Pointer)(unsafe.Pointer(&m))
+}
+
 // VerifRoot returns the root of the expression's syntax tree.
 func (e *Expr) VerifRoot() jparse.Node {
 	return e.node
